@@ -17,6 +17,8 @@ R14.12 a variant rejects what it does not describe: `required` is merged from ev
        so that first-match decoding cannot capture a later variant's payload                                  [= R2.3 / R2.4]
 R14.4  discriminated aliases keep their metadata for every Union spelling the type service can produce
 R14.13 the dataclass hook factories resolve field types with include_extras=True: a discriminated union field keeps its metadata next to a quoted self reference  [= R16.13]
+R14.15 a JSON scalar is decoded into the primitive variant of its own type: the coercing first-success loop over the non-dataclass variants is
+       entered only after the candidates were narrowed by `type(data)` / `isinstance(data, ...)` (Union[int, str] never turns "007" into 7)
 R14.14 a discriminator without explicit mapping is dispatched through a mapping built from the union's members (implicit mapping)
 """
 from __future__ import annotations
@@ -237,6 +239,60 @@ def run(repo: Repo, rep: Report, tier: str) -> None:
             rep.violation("R14.2", sub, f"{su.fq}|first-success-ignores-extra-keys",
                           "the first dataclass variant that structures wins, and dataclass structuring ignores unknown keys: a payload of a later variant whose "
                           "required fields are a superset of an earlier one's is decoded as the earlier variant and its extra keys are dropped", su.loc(loop))
+
+    # ---------------------------------------------------------------- R14.15 exact JSON type before coercion
+    # cattrs structures int / float / bool / str by calling the type (`int("007")`, `str(404)`, `bool("false")`): in a first-success loop the first
+    # *coercible* primitive wins, not the one the value is.  The loop over the non-dataclass variants must therefore run on candidates that were
+    # narrowed by the run-time type of the payload (an assignment to the iterated list, or a guard inside the loop, that depends on
+    # `type(<data>)` / `isinstance(<data>, ...)`).
+    from rules._memo import name_closure
+
+    a_ = su.node.args  # type: ignore[attr-defined]
+    data_p = (a_.posonlyargs + a_.args)[0].arg if (a_.posonlyargs + a_.args) else None
+    if data_p is None:
+        raise AnalysisError("R14.15: _structure_union has no payload parameter (anchor)")
+
+    def _typed(e: ast.AST) -> bool:
+        for x in ast.walk(e):
+            if isinstance(x, ast.Call) and isinstance(x.func, ast.Name) and x.func.id in ("type", "isinstance") and x.args and isinstance(x.args[0], ast.Name) and x.args[0].id == data_p:
+                return True
+        return False
+
+    typed_names = {t.id for st in own_nodes(su.node) if isinstance(st, (ast.Assign, ast.AnnAssign)) and st.value is not None and _typed(st.value)
+                   for t in (st.targets if isinstance(st, ast.Assign) else [st.target]) if isinstance(t, ast.Name)}
+    n_other = 0
+    for loop in seq_stmts:
+        if not isinstance(loop.iter, ast.Name) or L.root(loop.iter.id) in dc_lists:
+            continue
+        n_other += 1
+        v = loop.iter.id
+        narrowed = False
+        for st in own_nodes(su.node):
+            if isinstance(st, ast.Assign) and any(isinstance(t, ast.Name) and t.id == v for t in st.targets) and not isinstance(st.value, (ast.List, ast.Constant)) \
+                    and getattr(st, "lineno", 0) < loop.lineno:
+                deps = name_closure(su.node, {x.id for x in ast.walk(st.value) if isinstance(x, ast.Name)})
+                p_ = parent(st)
+                gtests = []
+                while p_ is not None and p_ is not su.node:
+                    if isinstance(p_, ast.If):
+                        gtests.append(p_.test)
+                    p_ = parent(p_)
+                for g in gtests:
+                    deps |= name_closure(su.node, {x.id for x in ast.walk(g) if isinstance(x, ast.Name)})
+                if _typed(st.value) or any(_typed(g) for g in gtests) or (deps & typed_names):
+                    narrowed = True
+        # or: inside the loop, a guard in front of the structure call that compares the variant with the payload's type
+        for x in ast.walk(loop):
+            if isinstance(x, ast.If) and _typed(x.test) and any(isinstance(y, (ast.Continue,)) or is_structure_return(y) for y in ast.walk(x)):
+                narrowed = True
+        sub = sub0 + " sequential loop over the other (primitive / hooked / generic) variants"
+        if narrowed:
+            rep.ok("R14.15", sub, "the candidates are narrowed by the payload's own JSON type before the coercing first-success loop", su.loc(loop))
+        else:
+            rep.violation("R14.15", sub, f"{su.fq}|primitive-variants-tried-by-coercion",
+                          "the non-dataclass variants are tried in order with converter.structure, and cattrs structures a primitive by calling the type: `Union[int, str]` decodes "
+                          "\"007\" as 7, `Union[str, int]` decodes 404 as \"404\", `Union[int, float]` decodes 2.5 as 2 - the payload does not re-encode to itself", su.loc(loop))
+    rep.require(n_other >= 1, "R14.15: the sequential loop over the non-dataclass variants was not found (anchor)")
 
     # ---------------------------------------------------------------- R14.3 order-preserving de-dup in the resolver
     sr = repo.module("types.resolvers.schema_resolver")
